@@ -15,6 +15,7 @@ RULE = ("Model-based histories (Hypothesis composite tracking inside/outside-tes
         "stopTest, startTest, outcome, stopTest, the startTest-less addSkip+stopTest pair, PlaceHolder(tags).run; "
         "replayed on every reporter class; after every call current_tags must equal the (global, local) model "
         "and at every outcome the tags seen by wrapped results / the stream consumer must equal the model. "
+        "Also: run boundaries anywhere between tests (a first explicit start after activity, a start during a run, reports after a stop), tags() by keyword, the caller adding to the set current_tags returned, tests that drop every current tag, doubles.ExtendedTestResult and ETOD over 2.6 / Twisted-style results as reporters, the tags handed to TestByTestResult's callback. "
         "Non-trivial: a test-local change followed by a later test, or a second startTestRun, or the start-less "
         "pair; distinct = distinct canonical (reporter, history).")
 ASSUMPTIONS = [
